@@ -1111,6 +1111,10 @@ func main() {
 		for rel, c := range code {
 			gen[rel] = c
 		}
+		// Language.mapping: its own translator (concrete package state: once cells and map variables)
+		mtext, mwhy := mappingLean(fset, rootFiles, &facts.Lang, tr.tables)
+		gen["Code/Language_mapping.lean"] = mtext
+		facts.Translated["Language.mapping"] = mwhy
 	}
 	for rel, c := range gen {
 		ch, err := writeIfChanged(filepath.Join(*out, rel), c)
